@@ -5,6 +5,7 @@ import (
 	"context"
 	"fmt"
 	"strings"
+	"sync"
 	"time"
 
 	"github.com/traefik/yaegi/interp"
@@ -21,12 +22,45 @@ type YResult struct {
 	Timeout bool
 }
 
+// capWriter keeps at most max bytes and calls onFull once when the cap is hit (a runaway program
+// must not exhaust the harness's memory).
+type capWriter struct {
+	mu     sync.Mutex
+	buf    bytes.Buffer
+	max    int
+	onFull func()
+	full   bool
+}
+
+func (w *capWriter) Write(p []byte) (int, error) {
+	w.mu.Lock()
+	defer w.mu.Unlock()
+	if w.full {
+		return len(p), nil
+	}
+	if w.buf.Len()+len(p) > w.max {
+		w.full = true
+		if w.onFull != nil {
+			w.onFull()
+		}
+		return len(p), nil
+	}
+	return w.buf.Write(p)
+}
+
+func (w *capWriter) String() string {
+	w.mu.Lock()
+	defer w.mu.Unlock()
+	return w.buf.String()
+}
+
 // RunYaegi evaluates a complete program (package main with func main) in a fresh interpreter.
 func RunYaegi(src string, timeout time.Duration) (res YResult) {
-	var so, se bytes.Buffer
 	done := make(chan struct{})
 	ctx, cancel := context.WithTimeout(context.Background(), timeout)
 	defer cancel()
+	so := &capWriter{max: 1 << 20, onFull: cancel}
+	se := &capWriter{max: 1 << 20, onFull: cancel}
 	go func() {
 		defer close(done)
 		defer func() {
@@ -34,7 +68,7 @@ func RunYaegi(src string, timeout time.Duration) (res YResult) {
 				res.Crash = fmt.Sprint(r)
 			}
 		}()
-		i := interp.New(interp.Options{Stdout: &so, Stderr: &se})
+		i := interp.New(interp.Options{Stdout: so, Stderr: se})
 		if err := i.Use(stdlib.Symbols); err != nil {
 			res.Err = err.Error()
 			return
